@@ -240,6 +240,8 @@ impl Context {
                 is_sequence,
             )?;
         }
+        // the new nodes exist only below this task's node: its row has to describe them
+        task.persist();
 
         Ok(())
     }
